@@ -5,6 +5,7 @@
 #include <stdlib.h>
 #include <string.h>
 #include <unistd.h>
+#include "verif_hooks.h"
 
 #ifdef __ANDROID__
 #include "cgreen/internal/android_headers/androidcompat.h"
@@ -106,7 +107,9 @@ void send_cgreen_message(int messaging, int result) {
     memset(message, 0, sizeof(*message));
     message->type = queues[messaging].tag;
     message->result = result;
+    CGREEN_VERIF_KILLPOINT("before_write");
     cgreen_pipe_write(queues[messaging].writepipe, message, sizeof(CgreenMessage));
+    CGREEN_VERIF_KILLPOINT("after_write");
     // give the parent a chance to read so that failures are more likely to be output
     // before the child crashes
     sched_yield();
